@@ -3,8 +3,12 @@ package main
 import (
 	"fmt"
 	"go/types"
+	"regexp"
 	"strings"
 )
+
+var byteRe = regexp.MustCompile(`\bbyte\b`)
+var runeRe = regexp.MustCompile(`\brune\b`)
 
 type Kind int
 
@@ -375,5 +379,8 @@ func (e *Exec) tagOf(t *Type) int {
 	if t.G != nil {
 		name = types.TypeString(t.G, nil)
 	}
+	// byte and rune are aliases of uint8 and int32
+	name = byteRe.ReplaceAllString(name, "uint8")
+	name = runeRe.ReplaceAllString(name, "int32")
 	return e.vc.Tag(name)
 }
